@@ -22,7 +22,7 @@ RULE = ("read side: NULL text from %d spellings/values (negative, positive, inte
         "spelling, placement pattern, engine, policy, wrap, text column); non-trivial = >= 1 NULL-equal and >= 1 near-NULL cell Added later: surplus columns holding NULL cells, a second write after in-place NaN / fill edits with an optionally changed NULL value, a text curve present on write."
         % len(NULLS))
 ASSUMPTIONS = [
-    "NULL texts are plain decimal literals; text columns hold non-numeric tokens (plus the canonical NULL spelling)",
+    "NULL texts are plain decimal literals; the cells of a text column are non-numeric tokens, the NULL in its canonical and in the file's own spelling, and codes with leading zeros",
     "write side: no finite sample prints as a token numerically equal to NULL",
 ]
 REQUIRED = ["read_cases", "cells_compared", "null_equal_cells_in_index", "near_null_cells", "null_equal_cells_other_spelling",
@@ -123,7 +123,8 @@ def run_read(case, ctx):
     if case["textcol"] and c >= 2:
         textcol = c - 1
         for i in range(r):
-            rows[i][textcol] = rng.choice(["abc", "N/A-1", "lith_A", repr(nv) if nv != int(nv) else "abc"])
+            rows[i][textcol] = rng.choice(["abc", "N/A-1", "lith_A", repr(nv) if nv != int(nv) else "abc"] +
+                                          ([nt, "007", "%s0" % nt if "." in nt and "e" not in nt.lower() else "0012"] if case["seed"] % 3 == 0 else []))
             cls[i][textcol] = "text"
         rows[0][textcol] = "abc"      # the first row decides the column type
     declared = c
@@ -176,7 +177,13 @@ def run_read(case, ctx):
                     ctx.violation("text-column-became-numeric", "text column %d has dtype %s" % (j, col.dtype), detail)
                     break
                 if str(col[i]) != tok:
-                    ctx.violation("text-column-touched", "text cell (%d,%d) %r read as %r" % (i, j, tok, str(col[i])), detail)
+                    key = "text-column-touched"
+                    try:
+                        if float(str(col[i])) == float(tok):
+                            key = "text-column-touched:numeric-looking-cell-respelled"
+                    except ValueError:
+                        pass
+                    ctx.violation(key, "text cell (%d,%d) %r read as %r" % (i, j, tok, str(col[i])), detail)
                 continue
             if col.dtype.kind != "f":
                 ctx.violation("numeric-column-read-as-text", "column %d has dtype %s" % (j, col.dtype), detail)
